@@ -707,4 +707,367 @@ theorem step_Evo {cfg : Cfg} (hg : CfgGood cfg) (w : World) (a : Action) (hns : 
           have hcond := choiceImmediate_none hg w f cls hci
           exact (choiceRegister_Evo hg f cls w hcond hnd).1.trans (awaitFiber_Evo _ f)
 
+/-! ## Part B: the ghost of the pending operation and the invariant -/
+
+/-- what the ghost `op` says about the suspended fiber `f` -/
+structure KOK (w : World) (f : Nat) (op : POp) : Prop where
+  le : op.sched ≤ (w.fibers f).sched
+  /-- not scheduled since it suspended: registered exactly as its operation says, nothing else -/
+  kept : op.sched = (w.fibers f).sched →
+    (∀ c, regR w f op.sched c ↔ c ∈ op.act.readChans) ∧ (∀ c, regW w f op.sched c ↔ c ∈ op.act.writeChans) ∧
+    (liveTimer w.fibers w.timers f ↔ op.act.isSleep = true) ∧ LT w.fibers w.runq f = 0
+  /-- scheduled since: its wake-up task is in the run queue -/
+  woken : op.sched < (w.fibers f).sched → LT w.fibers w.runq f = 1
+
+def KInv (w : World) (g : Ops) : Prop := ∀ f, (w.fibers f).status = .pending → ∃ op, g f = some op ∧ KOK w f op
+
+theorem liveIn_iff_reg (w : World) (f c : Nat) :
+    liveIn w.fibers w.ent f c ↔ regR w f (w.fibers f).sched c ∨ regW w f (w.fibers f).sched c := by
+  unfold liveIn regR regW
+  constructor
+  · rintro ⟨p, hp, h1, h2⟩
+    rcases (mem_ent w c p).mp hp with h | h
+    · exact Or.inl ⟨p, h, h1, h2⟩
+    · exact Or.inr ⟨p, h, h1, h2⟩
+  · rintro (⟨p, hp, h1, h2⟩ | ⟨p, hp, h1, h2⟩)
+    · exact ⟨p, (mem_ent w c p).mpr (Or.inl hp), h1, h2⟩
+    · exact ⟨p, (mem_ent w c p).mpr (Or.inr hp), h1, h2⟩
+
+theorem stepG_ghost_other (cfg : Cfg) (w : World) (g : Ops) (a : Action) (f : Nat) (h : w.current ≠ some f) :
+    (stepG cfg w g a).2 f = g f := by
+  unfold stepG
+  simp only []
+  cases hc : w.current with
+  | none => cases (step cfg w a).2 <;> rfl
+  | some f0 =>
+    have hne : f ≠ f0 := fun e => h (by rw [hc, e])
+    cases (step cfg w a).2 <;> simp [hne]
+
+theorem stepG_ghost_self (cfg : Cfg) (w : World) (g : Ops) (a : Action) (f : Nat) (h : w.current = some f)
+    (ho : (step cfg w a).2 = .await) : (stepG cfg w g a).2 f = some ⟨a, (w.fibers f).sched⟩ := by
+  unfold stepG
+  simp only [h, ho, ↓reduceIte]
+
+theorem LT_eq_zero_iff (fb : Fibers) (rq : List Task) (f : Nat) :
+    LT fb rq f = 0 ↔ ∀ t ∈ rq, ¬ (t.fiber = f ∧ t.expected = (fb f).sched) := by
+  unfold LT
+  rw [List.countP_eq_zero]
+  constructor
+  · intro h t ht hh; exact h t ht (by simp [hh.1, hh.2])
+  · intro h t ht hh
+    simp only [Bool.and_eq_true, beq_iff_eq] at hh
+    exact h t ht hh
+
+theorem sleep_no_chans (a : Action) (h : a.isSleep = true) : a.readChans = [] ∧ a.writeChans = [] := by
+  cases a <;> simp [Action.isSleep] at h <;> exact ⟨rfl, rfl⟩
+
+/-- a fiber that stays suspended over a transition: what its ghost says stays true -/
+theorem KOK_step {cur : Option Nat} {w w' : World} {f : Nat} {op : POp} (hE : Evo cur w w') (hW : WInv w) (hW' : WInv w')
+    (hcur : cur ≠ some f) (hp' : (w'.fibers f).status = .pending) (hk : KOK w f op) : KOK w' f op := by
+  have hmono := hE.1.mono f
+  have hnotcur : ∀ {g : Nat}, g = f → cur ≠ some g := fun e => e ▸ hcur
+  have hEnt : ∀ c p, p ∈ w'.ent c → p.fiber = f → p ∈ w.ent c := by
+    intro c p hp hf
+    rcases (mem_ent w' c p).mp hp with h | h
+    · rcases hE.1.newR c p h with h | h
+      · exact (mem_ent w c p).mpr (Or.inl h)
+      · exact absurd h (hnotcur hf)
+    · rcases hE.1.newW c p h with h | h
+      · exact (mem_ent w c p).mpr (Or.inr h)
+      · exact absurd h (hnotcur hf)
+  have hTm : ∀ t ∈ w'.timers, t.fiber = f → t ∈ w.timers := by
+    intro t ht hf
+    rcases hE.2.newTm t ht with h | h
+    · exact h
+    · exact absurd h (hnotcur hf)
+  -- with an unchanged sched_id, live entries / timers of f in w' were there in w
+  have hback : (w'.fibers f).sched = (w.fibers f).sched →
+      (liveTimer w'.fibers w'.timers f → liveTimer w.fibers w.timers f) ∧
+      (liveEntry w'.fibers w'.ent f → liveEntry w.fibers w.ent f) := by
+    intro hs
+    constructor
+    · rintro ⟨t, ht, h1, h2, h3⟩; exact ⟨t, hTm t ht h2, h1, h2, by rw [h3, hs]⟩
+    · rintro ⟨c, p, hp, h1, h2⟩; exact ⟨c, p, hEnt c p hp h1, h1, by rw [h2, hs]⟩
+  -- after a bump nothing of f is live except its task
+  have hbumped : (w.fibers f).sched < (w'.fibers f).sched → LT w'.fibers w'.runq f = 1 := by
+    intro hlt
+    rcases hW'.1.d1 f hp' with h | ⟨t, ht, _, h2, h3⟩ | ⟨c, p, hp, h1, h2⟩
+    · exact h
+    · have := hW.1.a3 t (hTm t ht h2); rw [h2] at this; omega
+    · have := hW.1.a1 c p (hEnt c p hp h1); rw [h1] at this; omega
+  refine ⟨Nat.le_trans hk.le hmono, ?_, ?_⟩
+  · intro hs
+    have hs0 : op.sched = (w.fibers f).sched := by have := hk.le; omega
+    have hss : (w'.fibers f).sched = (w.fibers f).sched := by omega
+    obtain ⟨kR, kW, kT, kL⟩ := hk.kept hs0
+    have hR : ∀ c, regR w' f op.sched c ↔ regR w f op.sched c := by
+      intro c
+      constructor
+      · rintro ⟨p, hp, h1, h2⟩
+        rcases hE.1.newR c p hp with h | h
+        · exact ⟨p, h, h1, h2⟩
+        · exact absurd h (hnotcur h1)
+      · rintro ⟨p, hp, h1, h2⟩
+        by_cases hin : p ∈ (w'.chans c).readPending
+        · exact ⟨p, hin, h1, h2⟩
+        · rcases hE.1.goneR c p hp hin with h | h
+          · rw [h1] at h; omega
+          · rw [h1] at h; omega
+    have hWr : ∀ c, regW w' f op.sched c ↔ regW w f op.sched c := by
+      intro c
+      constructor
+      · rintro ⟨p, hp, h1, h2⟩
+        rcases hE.1.newW c p hp with h | h
+        · exact ⟨p, h, h1, h2⟩
+        · exact absurd h (hnotcur h1)
+      · rintro ⟨p, hp, h1, h2⟩
+        by_cases hin : p ∈ (w'.chans c).writePending
+        · exact ⟨p, hin, h1, h2⟩
+        · rcases hE.1.goneW c p hp hin with h | h
+          · rw [h1] at h; omega
+          · rw [h1] at h; omega
+    have hL : LT w'.fibers w'.runq f = 0 := by
+      rw [LT_eq_zero_iff]
+      intro t ht hh
+      rcases hE.2.newTask t ht with h | h
+      · exact (LT_eq_zero_iff _ _ _).mp kL t h ⟨hh.1, by rw [hh.2, hss]⟩
+      · rw [hh.1, hh.2] at h; omega
+    refine ⟨fun c => (hR c).trans (kR c), fun c => (hWr c).trans (kW c), ?_, hL⟩
+    constructor
+    · intro h; exact kT.mp ((hback hss).1 h)
+    · intro h
+      obtain ⟨e1, e2⟩ := sleep_no_chans _ h
+      rcases hW'.1.d1 f hp' with h1 | h1 | ⟨c, h1⟩
+      · rw [hL] at h1; cases h1
+      · exact h1
+      · exfalso
+        rw [liveIn_iff_reg, ← hs] at h1
+        rcases h1 with h1 | h1
+        · have := ((hR c).trans (kR c)).mp h1; rw [e1] at this; simp at this
+        · have := ((hWr c).trans (kW c)).mp h1; rw [e2] at this; simp at this
+  · intro hlt
+    by_cases hss : (w'.fibers f).sched = (w.fibers f).sched
+    · have h1 := hk.woken (by omega)
+      obtain ⟨n1, n2⟩ := hW.1.d3 f h1
+      rcases hW'.1.d1 f hp' with h | h | h
+      · exact h
+      · exact absurd ((hback hss).1 h) n1
+      · exact absurd ((hback hss).2 h) n2
+    · exact hbumped (by omega)
+
+/-- the moment of suspension -/
+theorem KOK_await {w1 : World} {f : Nat} {a : Action}
+    (hR : ∀ c, regR w1 f (w1.fibers f).sched c ↔ c ∈ a.readChans)
+    (hWr : ∀ c, regW w1 f (w1.fibers f).sched c ↔ c ∈ a.writeChans)
+    (hT : liveTimer w1.fibers w1.timers f ↔ a.isSleep = true) (hL : LT w1.fibers w1.runq f = 0) :
+    KOK (awaitFiber w1 f) f ⟨a, (w1.fibers f).sched⟩ := by
+  have hs : ((awaitFiber w1 f).fibers f).sched = (w1.fibers f).sched := by simp [awaitFiber, setFiber]
+  refine ⟨by rw [hs]; exact Nat.le_refl _, ?_, ?_⟩
+  · intro _
+    refine ⟨hR, hWr, ?_, ?_⟩
+    · rw [← hT]; exact liveTimer_congr w1.timers f hs
+    · rw [← hL]; exact LT_congr w1.runq f hs
+  · intro h; simp only [hs] at h; omega
+
+/-- a take whose item was there: the fiber yields with its wake-up task already queued -/
+theorem KOK_yield {w2 : World} {f : Nat} {a : Action} (v : Val) (hm : WM w2) (hcan : (w2.fibers f).canceled = false) :
+    KOK (awaitFiber (schedule w2 f v) f) f ⟨a, (w2.fibers f).sched⟩ := by
+  have hL := LT_schedule_self f v .ok hm hcan
+  have hb := schedule_bump_of_not_canceled w2 f v .ok hcan
+  have hs : ((awaitFiber (schedule w2 f v) f).fibers f).sched = ((schedule w2 f v).fibers f).sched := by
+    simp [awaitFiber, setFiber]
+  refine ⟨?_, ?_, ?_⟩
+  · show (w2.fibers f).sched ≤ _; rw [hs]; exact Nat.le_of_lt hb
+  · intro h
+    have h' : (w2.fibers f).sched = ((awaitFiber (schedule w2 f v) f).fibers f).sched := h
+    rw [hs] at h'; unfold schedule at h'; omega
+  · intro _; rw [(await_view _ f 0).2]; exact hL
+
+theorem not_pending_of_current {w' : World} {f : Nat} (hW' : WInv w') (hc : w'.current = some f)
+    (hp : (w'.fibers f).status = .pending) : False := by
+  have := hW'.1.d5 f hc; rw [this] at hp; cases hp
+
+/-- the running fiber is suspended after the transition: the transition was an operation that suspends, and the fiber is
+    registered exactly as that operation says -/
+theorem suspend_K {cfg : Cfg} (hg : CfgGood cfg) (w : World) (a : Action) (hns : a.noSelfMatch) (hi : WInv w) (f : Nat)
+    (hcur : w.current = some f) (hp' : ((step cfg w a).1.fibers f).status = .pending) :
+    (step cfg w a).2 = .await ∧ KOK (step cfg w a).1 f ⟨a, (w.fibers f).sched⟩ := by
+  have hW' := step_W hg w a hns hi
+  obtain ⟨hm, hqq⟩ := hi
+  have hq : WQuiet w f := hqq f hcur
+  have hnc : ∀ c, ¬ liveIn w.fibers w.ent f c := fun c hh => hq.2.2 ⟨c, hh⟩
+  have hnoR : ∀ c, ¬ regR w f (w.fibers f).sched c := fun c h => hnc c ((liveIn_iff_reg w f c).mpr (Or.inl h))
+  have hnoW : ∀ c, ¬ regW w f (w.fibers f).sched c := fun c h => hnc c ((liveIn_iff_reg w f c).mpr (Or.inr h))
+  have hcanf : (w.fibers f).canceled = false := by
+    cases hc : (w.fibers f).canceled
+    · rfl
+    · have := hm.e f hc; rw [hq.1] at this; cases this
+  have key : ∀ r, step cfg w a = r → WInv r.1 → (r.1.fibers f).status = .pending →
+      r.2 = .await ∧ KOK r.1 f ⟨a, (w.fibers f).sched⟩ := by
+    intro r hr hW' hp'
+    unfold step at hr
+    rw [hcur] at hr
+    cases a with
+    | runTask => simp only [] at hr; subst hr; exact (not_pending_of_current hW' hcur hp').elim
+    | timers => simp only [] at hr; subst hr; exact (not_pending_of_current hW' hcur hp').elim
+    | poll => simp only [] at hr; subst hr; exact (not_pending_of_current hW' hcur hp').elim
+    | scopeEnd s => simp only [] at hr; subst hr; exact (not_pending_of_current hW' rfl hp').elim
+    | go g =>
+      simp only [] at hr
+      split at hr
+      · subst hr
+        exact (not_pending_of_current hW' (by simp only [schedule]; rw [(scheduleGeneral_props w g .nil .ok).2.2.1]; exact hcur) hp').elim
+      · subst hr; exact (not_pending_of_current hW' hcur hp').elim
+    | cancel g =>
+      simp only [] at hr
+      split at hr
+      · subst hr; exact (not_pending_of_current hW' hcur hp').elim
+      · subst hr
+        exact (not_pending_of_current hW' (by simp only [cancelFiber]; rw [(scheduleGeneral_props w g .errCancel .error).2.2.1]; exact hcur) hp').elim
+    | deadline s ms =>
+      simp only [] at hr; subst hr
+      exact (not_pending_of_current hW' rfl hp').elim
+    | finish e =>
+      simp only [] at hr; subst hr
+      cases e <;> simp [finishFiber, setFiber] at hp'
+    | close c =>
+      simp only [] at hr; subst hr
+      exact (not_pending_of_current hW' (chanClose_W hg.closeChecks (c := c) hm hcur hq).2.1 hp').elim
+    | sleep ms =>
+      simp only [] at hr; subst hr
+      refine ⟨rfl, ?_⟩
+      apply KOK_await (a := .sleep ms)
+      · intro c; simp only [Action.readChans, List.not_mem_nil, iff_false]; exact hnoR c
+      · intro c; simp only [Action.writeChans, List.not_mem_nil, iff_false]; exact hnoW c
+      · simp only [Action.isSleep, iff_true]
+        exact ⟨_, (mem_insertTimer _ _ _).mpr (Or.inl rfl), rfl, rfl, rfl⟩
+      · exact hq.1
+    | give c x =>
+      simp only [] at hr
+      cases hp : chanPush cfg w f c x 0 with
+      | closedErr => rw [hp] at hr; simp only [] at hr; subst hr; simp [finishFiber, setFiber] at hp'
+      | ok w1 b =>
+        rw [hp] at hr
+        obtain ⟨h1, h2, h3, h4, _, _, h7⟩ := chanPush_W hg.strict hp hm hcur hq.1 hq.2.1 (hnc c) (by decide)
+        cases b with
+        | false => simp only [] at hr; subst hr; exact (not_pending_of_current hW' h2 hp').elim
+        | true =>
+          simp only [] at hr; subst hr
+          refine ⟨rfl, ?_⟩
+          have hsf : (w1.fibers f).sched = (w.fibers f).sched := by rw [h7]
+          rw [← hsf]
+          obtain ⟨_, _, hoth, hcase⟩ := chanPush_cases cfg hg.strict w f c x 0 w1 true hp
+          rcases hcase with ⟨_, _, _, _, _, hrp, _, _, _, hwp⟩ | ⟨r, rest', _, hb, _⟩
+          · apply KOK_await (a := .give c x)
+            · intro c'
+              simp only [Action.readChans, List.not_mem_nil, iff_false]
+              by_cases e : c' = c
+              · subst e; rintro ⟨p, hp', _⟩; rw [hrp] at hp'; simp at hp'
+              · rw [hsf]; unfold regR; rw [hoth c' e]; exact hnoR c'
+            · intro c'
+              simp only [Action.writeChans, List.mem_singleton]
+              by_cases e : c' = c
+              · subst e
+                simp only [iff_true]
+                refine ⟨⟨f, (w.fibers f).sched, .write⟩, ?_, rfl, hsf.symm⟩
+                rw [hwp]; simp
+              · simp only [e, iff_false]; rw [hsf]; unfold regW; rw [hoth c' e]; exact hnoW c'
+            · simp only [Action.isSleep, Bool.false_eq_true, iff_false]; exact h4
+            · exact h3
+          · cases hb
+    | take c =>
+      simp only [] at hr
+      have hpw := chanPop_W hg.skips (mode := 0) hm hcur hq.1 hq.2.1 (hnc c) (by decide)
+      rcases chanPop_cases cfg hg.skips w f c 0 (by decide) with ⟨_, he⟩ | ⟨_, _, he⟩ | ⟨x, rest', o, wp', _, _, _, he⟩
+      · obtain ⟨h1, _, _, _, _, h6⟩ := hpw.1 _ _ he
+        rw [he] at hr; simp only [] at hr; subst hr
+        refine ⟨rfl, ?_⟩
+        have := KOK_yield (a := .take c) .nil h1 (by rw [h6]; exact hcanf)
+        rw [h6] at this; exact this
+      · obtain ⟨_, _, h3, h4, _, _, h7, _, _⟩ := hpw.2 _ he
+        rw [he] at hr; simp only [] at hr; subst hr
+        refine ⟨rfl, ?_⟩
+        apply KOK_await (a := .take c)
+        · intro c'
+          simp only [Action.readChans, List.mem_singleton]
+          by_cases e : c' = c
+          · subst e
+            simp only [iff_true]
+            refine ⟨⟨f, (w.fibers f).sched, .read⟩, ?_, rfl, rfl⟩
+            simp [setChan]
+          · simp only [e, iff_false]; unfold regR; simp only [setChan, e, ↓reduceIte]; exact hnoR c'
+        · intro c'
+          simp only [Action.writeChans, List.not_mem_nil, iff_false]
+          by_cases e : c' = c
+          · subst e; unfold regW; simp only [setChan, ↓reduceIte]; exact hnoW c'
+          · unfold regW; simp only [setChan, e, ↓reduceIte]; exact hnoW c'
+        · simp only [Action.isSleep, Bool.false_eq_true, iff_false]; exact h4
+        · exact h3
+      · obtain ⟨h1, _, _, _, _, h6⟩ := hpw.1 _ _ he
+        rw [he] at hr; simp only [] at hr; subst hr
+        refine ⟨rfl, ?_⟩
+        have := KOK_yield (a := .take c) (.num x) h1 (by rw [h6]; exact hcanf)
+        rw [h6] at this; exact this
+    | select cls =>
+      cases cls with
+      | nil => simp only [] at hr; subst hr; exact (not_pending_of_current hW' hcur hp').elim
+      | cons cl0 cls0 =>
+        simp only [] at hr
+        have hnd : ((cl0 :: cls0).map Clause.chan).Nodup := hns
+        generalize cl0 :: cls0 = cls at hnd hr
+        cases hci : choiceImmediate cfg w f cls with
+        | some r0 =>
+          rw [hci] at hr; simp only [] at hr; subst hr
+          exact (not_pending_of_current hW' (choiceImmediate_W hg f cls w r0.1 r0.2 hci hm hcur hq).2.1 hp').elim
+        | none =>
+          rw [hci] at hr; simp only [] at hr; subst hr
+          refine ⟨rfl, ?_⟩
+          have hcond := choiceImmediate_none hg w f cls hci
+          obtain ⟨_, hfib, hrq, htm, hR, hWr⟩ := choiceRegister_Evo hg f cls w hcond hnd
+          have hsf : ((choiceRegister cfg w f cls).fibers f).sched = (w.fibers f).sched := by rw [hfib]
+          rw [← hsf]
+          apply KOK_await (a := .select cls)
+          · intro c'; rw [hsf, hR c']; simp only [or_iff_right_iff_imp]; intro h; exact absurd h (hnoR c')
+          · intro c'; rw [hsf, hWr c']; simp only [or_iff_right_iff_imp]; intro h; exact absurd h (hnoW c')
+          · simp only [Action.isSleep, Bool.false_eq_true, iff_false]; rw [hfib, htm]; exact hq.2.1
+          · rw [hfib, hrq]; exact hq.1
+  exact key _ rfl hW' hp'
+
+/-- **one transition preserves the invariant on (world, ghost)** -/
+theorem stepG_K {cfg : Cfg} (hg : CfgGood cfg) (w : World) (g : Ops) (a : Action) (hns : a.noSelfMatch) (hi : WInv w)
+    (hk : KInv w g) : KInv (stepG cfg w g a).1 (stepG cfg w g a).2 := by
+  intro f hp'
+  rw [stepG_fst] at hp' ⊢
+  have hW' := step_W hg w a hns hi
+  have hE := step_Evo hg w a hns hi
+  by_cases hc : w.current = some f
+  · obtain ⟨ho, hkok⟩ := suspend_K hg w a hns hi f hc hp'
+    exact ⟨_, stepG_ghost_self cfg w g a f hc ho, hkok⟩
+  · rcases hE.2.pend f hp' with h | h
+    · obtain ⟨op, hop, hkop⟩ := hk f h
+      exact ⟨op, by rw [stepG_ghost_other cfg w g a f hc]; exact hop, KOK_step hE hi hW' hc hp' hkop⟩
+    · exact absurd h hc
+
+theorem runG_K {cfg : Cfg} (hg : CfgGood cfg) (as : List Action) :
+    ∀ (w : World) (g : Ops), (∀ a ∈ as, a.noSelfMatch) → WInv w → KInv w g →
+      WInv (runG cfg w g as).1 ∧ KInv (runG cfg w g as).1 (runG cfg w g as).2 := by
+  induction as with
+  | nil => intro w g _ hi hk; exact ⟨hi, hk⟩
+  | cons a rest ih =>
+    intro w g hns hi hk
+    simp only [runG]
+    exact ih _ _ (fun b hb => hns b (List.mem_cons_of_mem _ hb))
+      (by rw [stepG_fst]; exact step_W hg w a (hns a (by simp)) hi) (stepG_K hg w g a (hns a (by simp)) hi hk)
+
+theorem start_K (limits : Nat → Nat) (g : Ops) : KInv (World.start limits) g := by
+  intro f hp
+  exfalso
+  have hst := (scheduleGeneral_props (World.init limits) 0 .nil .ok).2.2.2
+  unfold World.start schedule at hp
+  rcases hst with ⟨_, hf, _⟩ | ⟨_, _, hst, hoth, _⟩
+  · rw [hf] at hp; simp [World.init] at hp
+  · by_cases e : f = 0
+    · subst e; rw [hst] at hp; simp [World.init] at hp
+    · rw [hoth f e] at hp; simp [World.init] at hp
+
 end JanetModel.Ev
